@@ -4,6 +4,7 @@ import Verif.Proofs.HtmlEntTable
 import Verif.Gen.C03Tables
 import Verif.Proofs.HtmlWs
 import Verif.Proofs.HtmlOptional
+import Verif.Proofs.HtmlGlue
 /-!
 # C03 — HTML minification preserves the parsed document
 
@@ -69,63 +70,61 @@ theorem unquoted_iff (v : List Char) (q : Quote) (must : Bool) :
     (v.all (fun c => !needsQuote c) && (!must || q = .none)) = true → escapeAttrVal v q must = v := by
   intro h; unfold escapeAttrVal; simp only [h, if_true]
 
-/-! ## character references (`parse.ReplaceEntities` with `html.EntitiesMap` / `html.TextRevEntitiesMap`) -/
+/-! ## character references (`parse.ReplaceEntities` with `html.EntitiesMap` and the reverse maps) -/
 
 /-- **entities_table_sound** (whole regenerated tables, linear merge evaluated by the kernel).
     Every row `name ↦ r` of `html.EntitiesMap`: `name;` is a named character reference of the HTML5 table,
-    and `r` is either the single ASCII byte it denotes (never CR), or a complete decimal reference `&#N;` to its
-    code point, or a complete reference `&name2;` to an alias with the same code points.  Every row
-    `b ↦ q` of `html.TextRevEntitiesMap`: `q` is a complete named reference that denotes the byte `b`. -/
+    and `r` is either the single ASCII byte it denotes (never NUL), or a complete decimal reference `&#N;` to its
+    code point, or a complete reference `&name2;` to an alias with the same code points.  Every row `b ↦ q` of
+    `html.TextRevEntitiesMap` and `html.AttrRevEntitiesMap`: `q` is a complete reference that denotes what a
+    numeric reference to the byte `b` denotes; both maps have a row for NUL and for CR (the two bytes that must
+    not be written literally in place of a reference). -/
 theorem entities_table_sound :
     emCheck C03Html5Entities.entities C03Tables.entitiesMap = true ∧
-    revCheck C03Tables.textRevEntitiesMap = true := by
-  constructor <;> decide +kernel
+    revCheck C03Tables.textRevEntitiesMap = true ∧ revCheck C03Tables.attrRevEntitiesMap = true ∧
+    revCovers C03Tables.textRevEntitiesMap = true ∧ revCovers C03Tables.attrRevEntitiesMap = true := by
+  refine ⟨?_, ?_, ?_, ?_, ?_⟩ <;> decide +kernel
 
-/-- what `html.go` does to the references of a text token (`attr = false`: both maps) or of an attribute value
-    (`attr = true`: `revEntitiesMap = nil`) -/
+/-- `parse.ReplaceEntities` as html.go calls it for a text token (`attr = false`: `TextRevEntitiesMap`) or an
+    attribute value (`attr = true`: `AttrRevEntitiesMap`) -/
 def replaceEntitiesCtx (attr : Bool) (raw : List Char) : List Char :=
   if attr then replaceEntitiesAttr raw else replaceEntitiesText raw
 
-/-- full statement: replacing character references never changes what the text / attribute value decodes to -/
+/-- full statement about the dependency function: replacing character references never changes what the text /
+    attribute value decodes to -/
 def entities_preserve_full : Prop :=
   ∀ (attr : Bool) (raw : List Char), decodeRefs attr (replaceEntitiesCtx attr raw) = decodeRefs attr raw
 
-/-- **entities_preserve_partial.**  For every raw text / raw attribute value outside the three narrow guards
-    (`glue`: K-C03-1, `ctlRef`/`crLfRef`: K-C03-2, `hexOverflow`: K-C03-3 — see `Spec/HtmlKnown.lean`; `crLfRef` is
-    not needed for the equality of units proved here but for reading it as an equality of parsed values, see there),
-    the bytes written by
-    `parse.ReplaceEntities` decode — in the same context, by the HTML standard's rules, whatever follows — to
-    exactly the units the input decodes to.  By induction over the text, for all inputs at once. -/
+/-- **entities_preserve_partial.**  For every raw text / raw attribute value outside the guards (`glue`: the
+    in-place replacement of `parse.ReplaceEntities` would complete a reference — html.go now checks this itself, see
+    `html_refs_preserved`; `hexOverflow`: K-C03-3; `crLfRef`: K-C03-13, not needed for the equality of units proved
+    here but for reading it as an equality of parsed values), the bytes written by `parse.ReplaceEntities` decode —
+    in the same context, by the HTML standard's rules, whatever follows — to exactly the units the input decodes
+    to.  References to NUL and CR stay references (reverse maps).  By induction over the text. -/
 theorem entities_preserve_partial (attr : Bool) (raw : List Char) (g : refsTrigger raw = false) :
     decodeRefs attr (replaceEntitiesCtx attr raw) = decodeRefs attr raw := by
   have hem : EmOk C03Tables.entitiesMap := emCheck_sound _ entities_table_sound.1
   simp only [refsTrigger, Bool.or_eq_false_iff] at g
-  obtain ⟨⟨⟨hg, hc⟩, ho⟩, _⟩ := g
+  obtain ⟨⟨hg, ho⟩, _⟩ := g
   unfold replaceEntitiesCtx
   cases attr with
   | true =>
-    exact replEnt_preserve _ [] hem (fun ch q h => by simp [List.lookup] at h) true _ raw (Nat.le_refl _) hg hc ho
+    exact replEnt_preserve _ _ hem (revCheck_sound _ entities_table_sound.2.2.1)
+      (revCovers_sound _ entities_table_sound.2.2.2.2) true _ raw (Nat.le_refl _) hg ho
   | false =>
-    exact replEnt_preserve _ _ hem (revCheck_sound _ entities_table_sound.2) false _ raw (Nat.le_refl _) hg hc ho
+    exact replEnt_preserve _ _ hem (revCheck_sound _ entities_table_sound.2.1)
+      (revCovers_sound _ entities_table_sound.2.2.2.1) false _ raw (Nat.le_refl _) hg ho
 
 /-- non-vacuity: an ordinary text with five kinds of references is outside the guards and is really rewritten -/
 example : refsTrigger "a &amp; b &lt; &#233;&AElig;&quot;".toList = false ∧
     replaceEntitiesCtx false "a &amp; b &lt; &#233;&AElig;&quot;".toList = "a & b &lt; &#233;&#198;\"".toList := by
   decide +kernel
 
-/-- **entities_preserve_counterexample** (K-C03-1): `&amp;&#108;t;` becomes `&lt;`, which denotes `<`, while the
-    input denotes the four characters `&lt;`.  The replacements are made one after the other in place, so the
-    second one completes a reference that the input did not contain. -/
+/-- **entities_preserve_counterexample** (the dependency function alone): `&amp;&#108;t;` becomes `&lt;`, which
+    denotes `<`, while the input denotes the four characters `&lt;`. -/
 theorem entities_preserve_counterexample : ¬ entities_preserve_full := by
   intro h
   exact absurd (h false "&amp;&#108;t;".toList) (by decide +kernel)
-
-/-- the guard `ctlRef` is needed (K-C03-2): `a&#13;b` in an attribute value is written with a literal CR byte,
-    which the parser's newline normalisation turns into LF; `&#0;` is written as a literal NUL -/
-theorem entities_preserve_ctl_counterexample :
-    decodeRefs true (replaceEntitiesCtx true "a&#13;b".toList) ≠ decodeRefs true "a&#13;b".toList ∧
-    decodeRefs false (replaceEntitiesCtx false "a&#0;b".toList) ≠ decodeRefs false "a&#0;b".toList := by
-  decide +kernel
 
 /-- the guard `hexOverflow` is needed (K-C03-3): Go accumulates the hexadecimal value in a wrapping `int` -/
 theorem entities_preserve_overflow_counterexample :
@@ -133,17 +132,46 @@ theorem entities_preserve_overflow_counterexample :
     decodeRefs true "&#x8000000000000041;".toList = [.cp 0xFFFD] := by
   decide +kernel
 
-/-- **attr_value_preserved** (the plain attribute path of html.go: `ReplaceEntities`, then `EscapeAttrVal`).
-    Outside the guards, whatever quoting the input used and whatever quoting and references the minifier chooses:
-    the written attribute tokenises back to one conforming value that decodes to what the input value decoded to. -/
+/-- references to NUL and CR are kept as references (regression for K-C03-2) -/
+example : replaceEntitiesCtx true "a&#13;b&#x0D;&#0;".toList = "a&#13;b&#13;&#0;".toList ∧
+    replaceEntitiesCtx false "a&#0;b".toList = "a&#0;b".toList := by decide +kernel
+
+/-- the guard of the html.go-level statements: K-C03-3 and K-C03-13 only -/
+def htmlRefsTrigger (raw : List Char) : Bool := hexOverflow raw || crLfRef raw
+
+/-- **html_refs_preserved.**  What html.go does to the references of an attribute value that is not trimmed
+    (`attrVal0 false`: `hasReferenceGlue` guard, else `ReplaceEntities` with `AttrRevEntitiesMap`) never changes what
+    the value decodes to — for every value without a hexadecimal reference ≥ 2^63 and without a literal CR directly
+    followed by a reference to LF.  The guard of html.go (`hasReferenceGlue`) is proved to cover the specification's
+    `glue` predicate (`glue_of_hasReferenceGlue`, using the whole HTML5 table). -/
+theorem html_refs_preserved (val : List Char) (g : htmlRefsTrigger val = false) :
+    decodeRefs true (Verif.Model.Html.attrVal0 false val) = decodeRefs true val := by
+  simp only [htmlRefsTrigger, Bool.or_eq_false_iff] at g
+  unfold Verif.Model.Html.attrVal0
+  cases hg : Verif.Model.Html.hasReferenceGlue val with
+  | true => simp
+  | false =>
+    simp only [Bool.false_eq_true, if_false]
+    have := entities_preserve_partial true val (by
+      simp [refsTrigger, Verif.Proofs.HtmlGlue.glue_of_hasReferenceGlue val hg, g.1, g.2])
+    exact this
+
+/-- **attr_value_preserved** (the plain attribute path of html.go: reference handling, then `EscapeAttrVal`).
+    Whatever quoting the input used and whatever quoting and references the minifier chooses: the written attribute
+    tokenises back to one conforming value that decodes to what the input value decoded to. -/
 theorem attr_value_preserved (val : List Char) (q : Quote) (must : Bool) (rest : List Char)
-    (hne : replaceEntitiesAttr val ≠ []) (hrest : tagContinues rest = true) (g : refsTrigger val = false) :
-    ∃ raw, tokenizeAttr (escapeAttrVal (replaceEntitiesAttr val) q must ++ rest) = some (raw, rest) ∧
+    (hne : Verif.Model.Html.attrVal0 false val ≠ []) (hrest : tagContinues rest = true)
+    (g : htmlRefsTrigger val = false) :
+    ∃ raw, tokenizeAttr (escapeAttrVal (Verif.Model.Html.attrVal0 false val) q must ++ rest) = some (raw, rest) ∧
       decodeAttr raw = decodeAttr val := by
-  obtain ⟨raw, h1, h2⟩ := attr_roundtrip (replaceEntitiesAttr val) q must rest hne hrest
+  obtain ⟨raw, h1, h2⟩ := attr_roundtrip (Verif.Model.Html.attrVal0 false val) q must rest hne hrest
   refine ⟨raw, h1, ?_⟩
   rw [h2]
-  exact entities_preserve_partial true val g
+  exact html_refs_preserved val g
+
+/-- regressions for K-C03-1: values with reference glue keep their references -/
+example : Verif.Model.Html.attrVal0 false "&amp;&#35;60;".toList = "&amp;&#35;60;".toList ∧
+    Verif.Model.Html.textCollapsed "&amp;&#108;t;  x".toList = "&amp;&#108;t; x".toList := by decide +kernel
 
 /-! ## whitespace (`html.go` text branch and the pending-space flag) -/
 section Whitespace
@@ -154,44 +182,47 @@ open Verif.Model.Html Verif.Spec.HtmlWs Verif.Proofs.HtmlWs
 def inItems (o : Opts) (ext : Ext) (sub : Sub) (toks : List HTok) : List Item := (inOut o ext sub {} toks).1
 def outItems (o : Opts) (ext : Ext) (sub : Sub) (toks : List HTok) : List Item := (inOut o ext sub {} toks).2
 
-/-- decidable side conditions of `ws_refine_partial`, checked along the run (`Proofs/HtmlWs.lean`, `tokGuard`):
-    no template delimiters; no `</template>` end tag (it sets the pending-space flag unconditionally: K-C03-9);
-    no omitted end tag of an object-like element (`rt`, `rtc`: the flag is then not reset: K-C03-9);
-    text dropped inside `select`/`optgroup` is whitespace next to an `option`/`select` boundary;
-    `<script></script>`/`<style></style>` pairs are closed by a non-object end tag (lexer contract);
-    the text of a raw-text element other than script/style follows an object-like start tag (textarea, iframe). -/
-def wsGuard (o : Opts) (ext : Ext) (sub : Sub) (toks : List HTok) : Bool := guard o ext sub {} [] toks
+/-- the domain of `ws_refine` — decidable, checked along the run (`Proofs/HtmlWs.lean`, `tokGuard`); no known
+    finding is left in it, only conditions that the lexer guarantees or that conforming content satisfies:
+    no template delimiters are configured; text dropped inside `select`/`optgroup` is whitespace next to an
+    `option`/`select` boundary (the content model of `select` has no text); a `<script>`/`<style>` start tag that is
+    directly followed by an end tag is followed by its own, non-object end tag; the text of a raw-text element other
+    than script/style follows an object-like start tag (`textarea`, `iframe`; `svg`/`math` arrive as single tokens);
+    an ordinary text token is not empty. -/
+def wsDomain (o : Opts) (ext : Ext) (sub : Sub) (toks : List HTok) : Bool := guard o ext sub {} [] toks
 
-/-- **ws_refine_partial.**  For every token stream, every option set (all `Keep*` combinations incl.
+/-- **ws_refine.**  For every token stream in `wsDomain`, every option set (all `Keep*` combinations incl.
     `KeepWhitespace`), every sub-minifier and external-result table: the document that the model writes is the input
     document with some whitespace runs deleted, and every deleted run was deletable where it stood — to its left
     (through inline boundaries) a block boundary, the document start or whitespace that is kept; or to its right
     (through inline boundaries and further whitespace) a block boundary, the end of an atomic inline box or the end
     of the document.  Everything else — words, element boundaries, preformatted and raw text — is in place
     (`refine_words`), and whitespace between two words / atomic inline boxes is never deleted
-    (`refine_no_join`).  Classes are those of html/table.go (`blockTag`, `objectTag`); whether those classes match
-    the elements' default rendering is a statement about the table (see `tag_classes_counterexample`).
+    (`refine_no_join`).  Classes are those of html/table.go (`blockTag`, `objectTag`; see `tag_classes_ok`).
     Proof: induction over the token list with the invariant "pending-space flag set ⇒ whitespace is deletable on
     its left", plus a look-ahead lemma for the trim-right decision. -/
-theorem ws_refine_partial (o : Opts) (ext : Ext) (sub : Sub) (toks : List HTok)
-    (g : wsGuard o ext sub toks = true) :
+theorem ws_refine (o : Opts) (ext : Ext) (sub : Sub) (toks : List HTok)
+    (g : wsDomain o ext sub toks = true) :
     WsRefine (inItems o ext sub toks) (outItems o ext sub toks) :=
   ws_refine_core o ext sub toks {} [] (fun _ _ => rfl) g
 
-/-- full statement (no side conditions) -/
+/-- the statement without the domain condition -/
 def ws_refine_full : Prop :=
   ∀ (o : Opts) (ext : Ext) (sub : Sub) (toks : List HTok), WsRefine (inItems o ext sub toks) (outItems o ext sub toks)
 
 /-- corollary: the non-whitespace items of input and output coincide -/
 theorem ws_words_preserved (o : Opts) (ext : Ext) (sub : Sub) (toks : List HTok)
-    (g : wsGuard o ext sub toks = true) :
+    (g : wsDomain o ext sub toks = true) :
     (inItems o ext sub toks).filter (fun i => !isWsItem i) = (outItems o ext sub toks).filter (fun i => !isWsItem i) :=
-  refine_words (ws_refine_partial o ext sub toks g)
+  refine_words (ws_refine o ext sub toks g)
 
-/-- **pre_untouched.**  A text token inside `pre` is written byte for byte. -/
+/-- **pre_untouched.**  A text token inside `pre` is written byte for byte, except that one newline is put in
+    front of it when it starts with a newline, directly follows the `<pre>` start tag and a comment that was between
+    them (K-C03-12: without it the parser would drop the text's first newline). -/
 theorem pre_untouched (o : Opts) (ext : Ext) (sub : Sub) (st : St) (data : List Char) (tmpl : Bool)
     (rest : List HTok) (h1 : st.dropEnd = false) (h2 : textMode st tmpl = 2) :
-    ∃ st', step o ext sub st (.text data tmpl) rest = .ok (st', data) := by
+    ∃ st', step o ext sub st (.text data tmpl) rest =
+      .ok (st', if st.afterPre = 2 && headIs (fun c => c = '\n' || c = '\r') data then '\n' :: data else data) := by
   unfold textMode at h2
   unfold step
   simp only [h1, Bool.false_eq_true, if_false]
@@ -223,32 +254,39 @@ theorem raw_untouched (o : Opts) (ext : Ext) (st : St) (data : List Char) (tmpl 
       split <;> exact ⟨_, rfl⟩
     · split at h2 <;> simp at h2
 
-/-- **ws_refine_counterexample** (K-C03-9): `<p>a<template>x</template> b</p>` — the `</template>` end tag sets the
-    pending-space flag unconditionally, the space before `b` (between the words `x`… and `b`, both inline) is
-    deleted although it is not deletable. -/
+/-- **ws_refine_counterexample**: the domain condition cannot be dropped — a token stream that the lexer never
+    produces (`math` as an ordinary start tag with raw text: it is neither object-like nor hidden) loses the space
+    between the raw text and the next word. -/
 theorem ws_refine_counterexample : ¬ ws_refine_full := by
   intro h
   have r := h {} [] none
-    [.startTag "p".toList [], .text "a".toList false, .startTag "template".toList [], .text "x".toList false,
-     .endTag "template".toList "</template>".toList, .text " b".toList false, .endTag "p".toList "</p>".toList]
+    [.text "a ".toList false, .startTag "math".toList [], .text "x".toList false,
+     .endTag "math".toList "</math>".toList, .text " b".toList false]
   have := refineB_complete r
   revert this
   decide +kernel
 
-/-- non-vacuity of `ws_refine_partial`: a document with block, inline and object-like elements, `pre`, a comment,
-    a `select`; the side conditions hold, several whitespace runs are really deleted, one between words is kept -/
+/-- non-vacuity of `ws_refine`, and regressions for K-C03-9: block, inline and object-like elements, `pre`, a
+    comment, `template`, `q`, `embed`; the domain condition holds, several whitespace runs are really deleted, the ones
+    between words, after `</template>`, before `</q>` and after `<embed>` are kept -/
 example :
     let toks : List HTok :=
       [.startTag "div".toList [], .text " a  b ".toList false, .startTag "b".toList [], .text " c ".toList false,
        .endTag "b".toList "</b>".toList, .comment "<!-- x -->".toList " x ".toList, .text " d ".toList false,
        .startTag "img".toList [], .text " e ".toList false, .endTag "div".toList "</div>".toList,
-       .text "\n".toList false, .startTag "pre".toList [], .text " p  q ".toList false, .endTag "pre".toList "</pre>".toList]
-    wsGuard {} [] none toks = true ∧
+       .text "\n".toList false, .startTag "pre".toList [], .text " p  q ".toList false, .endTag "pre".toList "</pre>".toList,
+       .startTag "p".toList [], .text "a".toList false, .startTag "template".toList [], .text "x".toList false,
+       .endTag "template".toList "</template>".toList, .text " b ".toList false, .startTag "q".toList [],
+       .text "c ".toList false, .endTag "q".toList "</q>".toList, .startTag "embed".toList [], .text " f".toList false,
+       .endTag "p".toList "</p>".toList]
+    wsDomain {} [] none toks = true ∧
     inItems {} [] none toks =
       [.blk, .ws, .word, .ws, .word, .ws, .inl, .ws, .word, .ws, .inl, .ws, .word, .ws, .objS, .ws, .word, .ws, .blk,
-       .ws, .blk, .raw, .blk] ∧
+       .ws, .blk, .raw, .blk,
+       .blk, .word, .objS, .word, .objE, .ws, .word, .ws, .objS, .word, .ws, .objE, .objS, .ws, .word, .blk] ∧
     outItems {} [] none toks =
-      [.blk, .word, .ws, .word, .ws, .inl, .word, .ws, .inl, .word, .ws, .objS, .ws, .word, .blk, .blk, .raw, .blk] := by
+      [.blk, .word, .ws, .word, .ws, .inl, .word, .ws, .inl, .word, .ws, .objS, .ws, .word, .blk, .blk, .raw, .blk,
+       .blk, .word, .objS, .word, .objE, .ws, .word, .ws, .objS, .word, .ws, .objE, .objS, .ws, .word, .blk] := by
   decide +kernel
 
 end Whitespace
@@ -257,86 +295,110 @@ end Whitespace
 section OptionalTags
 open Verif.Model.Html Verif.Spec.HtmlOptional Verif.Spec.HtmlKnownDoc Verif.Proofs.HtmlOptional
 
-/-- full statement: whenever the model omits an end tag in a context that the content models allow, the standard
-    allows the omission there -/
-def omit_allowed_full : Prop :=
-  ∀ (o : Opts) (e : List Char) (rest : List HTok), omitEndTag o e rest = true →
-    conformingAfter e (nextOf rest) = true → mayOmitEnd e (nextOf rest) = true
-
-/-- **omit_allowed_partial.**  If the model omits the end tag of `e` (for any options and any following tokens),
+/-- **omit_allowed** (full).  If the model omits the end tag of `e` — for any options and any following tokens —
     and what follows is something the content models allow after `e`, then the HTML standard's optional-tag rule for
-    `e` allows the omission before that token — except in the two guarded situations: `trigPEnd` (K-C03-4: `</p>`
-    before the end tag of a custom element, of `slot`, or of an element outside html/table.go) and `trigEndOmit`
-    (K-C03-5: an unconditionally omitted end tag before a script-supporting element, `</thead>` before `<tr>`,
-    `</rt>`/`</rp>` before more ruby text, `</optgroup>` before a comment and `<option>`).
-    For `p` this is a theorem about the look-ahead and the regenerated `omitPTag`/`keepPTag` columns of the whole
-    table (`p_tables_ok`); for the unconditionally omitted tags it states that `trigEndOmit` is exactly the set
-    of allowed-but-not-omissible contexts. -/
-theorem omit_allowed_partial (o : Opts) (e : List Char) (rest : List HTok)
-    (h : omitEndTag o e rest = true) (hc : conformingAfter e (nextOf rest) = true)
-    (g1 : trigPEnd e (nextOf rest) = false) (g2 : trigEndOmit e rest = false) :
+    `e` allows the omission before that token.  For `p` this is a theorem about the look-ahead and the regenerated
+    `omitPTag`/`keepPTag` columns of the whole table (`p_tables_ok`: only known, non-custom end tags outside the
+    standard's keep list); for `li dt dd rb rt rtc rp option thead tbody tfoot tr td th` about
+    `endTagOmittable`/`closesBefore` (`omittable_finite`); for `optgroup` about its look-ahead (end of the select,
+    another end tag, or `<optgroup>`). -/
+theorem omit_allowed (o : Opts) (e : List Char) (rest : List HTok)
+    (h : omitEndTag o e rest = true) (hc : conformingAfter e (nextOf rest) = true) :
     mayOmitEnd e (nextOf rest) = true := by
   simp only [omitEndTag, Bool.and_eq_true, Bool.or_eq_true] at h
-  cases hm : mayOmitEnd e (nextOf rest) with
-  | true => rfl
-  | false =>
-    exfalso
-    unfold trigEndOmit at g2
-    simp only [Bool.or_eq_false_iff] at g2
-    have g2a := g2.1
-    rw [hc, hm] at g2a
-    simp only [Bool.not_false, Bool.and_true] at g2a
-    simp only [Bool.or_eq_false_iff, decide_eq_false_iff_not] at g2a
-    rcases h.2 with (ha | hp) | hog
-    · rw [alwaysOmit_names e ha] at g2a; exact absurd g2a.1 (by decide)
-    · have he := hashIs_eq' hp.1
-      subst he
-      rw [omit_p_allowed rest hp.2 g1] at hm; exact absurd hm (by decide)
-    · exact g2a.2 (hashIs_eq' hog.1)
+  rcases h.2 with (ha | hp) | hog
+  · exact omit_always_allowed e rest (alwaysOmit_mem e ha.1) ha.2 hc
+  · have he := hashIs_eq' hp.1
+    subst he
+    exact omit_p_allowed rest hp.2
+  · have he := hashIs_eq' hog.1
+    subst he
+    exact omit_optgroup_allowed rest hog.2 hc
 
-/-- **omit_allowed_counterexample** (K-C03-5): `<li>a</li><script>` — `script` may follow `</li>` in a list, the
-    model omits `</li>`, the standard allows that only before another `<li>` or at the end of the list -/
-theorem omit_allowed_counterexample : ¬ omit_allowed_full := by
-  intro h
-  exact absurd (h {} "li".toList [.startTag "script".toList []] (by decide +kernel) (by decide +kernel)) (by decide +kernel)
-
-/-- the same for `p` (K-C03-4): `<my-el><p>x</p></my-el>` -/
-theorem omit_p_counterexample :
-    omitEndTag {} "p".toList [.endTag "my-el".toList "</my-el>".toList] = true ∧
-    mayOmitEnd "p".toList (nextOf [.endTag "my-el".toList "</my-el>".toList]) = false := by
-  decide +kernel
-
-/-- non-vacuity: `</p>` before `<div>`, `</li>` before `<li>`, `</td>` at the end of the row -/
+/-- non-vacuity and regressions (K-C03-4, -5, -14): `</p>` omitted before `<div>` but kept before `</my-el>`,
+    `</slot>`; `</li>` omitted before `<li>` but kept before `<script>`; `</thead>` kept before `<tr>`; `</rt>` kept
+    before text; `</td>` omitted at the end of the row; `</optgroup>` kept before `<script>`, omitted before
+    `<optgroup>` -/
 example :
     omitEndTag {} "p".toList [.text " ".toList false, .startTag "div".toList []] = true ∧
-    trigPEnd "p".toList (nextOf [.text " ".toList false, .startTag "div".toList []]) = false ∧
-    trigEndOmit "li".toList [.startTag "li".toList []] = false ∧
+    omitEndTag {} "p".toList [.endTag "my-el".toList "</my-el>".toList] = false ∧
+    omitEndTag {} "p".toList [.endTag "slot".toList "</slot>".toList] = false ∧
+    omitEndTag {} "li".toList [.startTag "li".toList []] = true ∧
+    omitEndTag {} "li".toList [.startTag "script".toList []] = false ∧
+    omitEndTag {} "thead".toList [.text "\n".toList false, .startTag "tr".toList []] = false ∧
+    omitEndTag {} "rt".toList [.text "c".toList false] = false ∧
+    omitEndTag {} "td".toList [.endTag "tr".toList "</tr>".toList] = true ∧
+    omitEndTag {} "optgroup".toList [.startTag "script".toList []] = false ∧
+    omitEndTag {} "optgroup".toList [.text " ".toList false, .startTag "optgroup".toList []] = true ∧
     conformingAfter "td".toList (nextOf [.endTag "tr".toList "</tr>".toList]) = true := by
   decide +kernel
 
+/-- the model drops an attribute-less start tag `name` in front of `rest` -/
+def dropsStart (o : Opts) (name : List Char) (rest : List HTok) : Bool :=
+  !(hashIs name "body" && keepBody rest) && isDroppedTag o name
+
+theorem keepBody_next (rest : List HTok) (h : keepBody rest = false) :
+    ∀ n, nextOf rest = .start n → isOneOf n Verif.Spec.HtmlOptional.headBound = false := by
+  induction rest with
+  | nil => intro n e; simp [nextOf] at e
+  | cons t r ih =>
+    intro n e
+    cases t with
+    | text d tm =>
+      simp only [keepBody] at h
+      simp only [nextOf, ← allWs_eq] at e
+      split at h
+      · next hw => simp only [hw, if_true] at e; exact ih h n e
+      · next hw => simp [hw] at e
+    | comment d tx => simp only [keepBody] at h; simp only [nextOf] at e; exact ih h n e
+    | startTag m a =>
+      simp only [keepBody] at h
+      simp only [nextOf, Next.start.injEq] at e
+      subst e
+      cases hh : isOneOf m Verif.Spec.HtmlOptional.headBound with
+      | false => rfl
+      | true =>
+        exfalso
+        simp only [isOneOf, names, Verif.Spec.HtmlOptional.headBound, List.map_cons, List.map_nil, List.contains_cons,
+          List.contains_nil, Bool.or_false, Bool.or_eq_true, beq_iff_eq] at hh
+        have : Verif.Model.Html.headBound.any (hashIs m) = true := by
+          rcases hh with e | e | e | e | e | e <;> (subst e; decide)
+        rw [this] at h; exact absurd h (by decide)
+    | endTag m d => simp [nextOf] at e
+    | doctype => simp [nextOf] at e
+    | svg d => simp only [nextOf, Next.start.injEq] at e; subst e; decide
+    | math d => simp only [nextOf, Next.start.injEq] at e; subst e; decide
+    | template d => simp [nextOf] at e
+
 /-- **doc_tags_allowed.**  An attribute-less `html`, `head`, `body` or `colgroup` start tag that the model drops
-    may be omitted by the standard's rule, given that a `head` is followed by element content (or its own end), and
-    outside the guards `colgroup` (K-C03-6) and `bodystart` (K-C03-7), which are exactly the remaining cases; the
-    corresponding end tags may always be omitted. -/
+    may be omitted by the standard's rule — for `body` because of the look-ahead `keepBody` (K-C03-7), for `head`
+    given that element content (or its own end tag) follows, for `colgroup` outside the guard `trigStartDrop`
+    (K-C03-6: html.go still drops these tags unconditionally); the corresponding end tags may always be omitted. -/
 theorem doc_tags_allowed (o : Opts) (name : List Char) (prev : Next) (rest : List HTok)
-    (h : isDroppedTag o name = true) (g : trigStartDrop prev name rest = none)
+    (h : dropsStart o name rest = true) (g : trigStartDrop prev name rest = none)
     (hhead : name = "head".toList →
       (match nextOf rest with | .start _ => true | .end_ n => n = "head".toList | _ => false) = true) :
     mayOmitStart name prev (nextOf rest) = true ∧ mayOmitEnd name (nextOf rest) = true := by
+  simp only [dropsStart, Bool.and_eq_true, Bool.not_eq_true', Bool.and_eq_false_iff] at h
+  obtain ⟨hkb, h⟩ := h
   simp only [isDroppedTag, Bool.or_eq_true, Bool.and_eq_true] at h
   rcases h with ⟨_, (h | h) | h⟩ | h <;> (have he := hashIs_eq' h; subst he)
   · exact ⟨rfl, rfl⟩
   · refine ⟨?_, rfl⟩
     have := hhead rfl
     simp only [mayOmitStart]
-    split at this <;> simp_all
+    split at this <;> simp_all [is]
   · refine ⟨?_, rfl⟩
-    cases hm : mayOmitStart "body".toList prev (nextOf rest) with
-    | true => rfl
-    | false =>
-      simp [trigStartDrop] at g
-      have e : "body".toList = ['b', 'o', 'd', 'y'] := rfl
-      rw [e] at hm; rw [hm] at g; cases g
+    have hk : keepBody rest = false := by
+      rcases hkb with hkb | hkb
+      · exact absurd hkb (by decide)
+      · exact hkb
+    have hn := keepBody_next rest hk
+    cases hx : nextOf rest with
+    | start n => simp [mayOmitStart, is, hn n hx]
+    | end_ n => simp [mayOmitStart, is]
+    | eof => simp [mayOmitStart, is]
+    | other => simp [mayOmitStart, is]
   · refine ⟨?_, rfl⟩
     cases hm : mayOmitStart "colgroup".toList prev (nextOf rest) with
     | true => rfl
@@ -345,17 +407,23 @@ theorem doc_tags_allowed (o : Opts) (name : List Char) (prev : Next) (rest : Lis
       have e : "colgroup".toList = ['c', 'o', 'l', 'g', 'r', 'o', 'u', 'p'] := rfl
       rw [e] at hm; rw [hm] at g; cases g
 
+/-- regression for K-C03-7: `<body>` is kept in front of `<script>`, dropped in front of `<p>` -/
+example : dropsStart {} "body".toList [.text "\n".toList false, .startTag "script".toList []] = false ∧
+    dropsStart {} "body".toList [.startTag "p".toList []] = true := by decide +kernel
+
 end OptionalTags
 
-/-! ## the tag classes of html/table.go against the default rendering (K-C03-9) -/
+/-! ## the tag classes of html/table.go against the default rendering -/
 
-/-- **tag_classes_counterexample.**  `noscript` and `style` carry `blockTag` although they are not rendered as
-    blocks (hidden / inline: whitespace next to them is significant for the surrounding text); `embed` and `audio`
-    (replaced elements) are neither `objectTag` nor `blockTag`. -/
-theorem tag_classes_counterexample :
-    Verif.Model.Html.isBlock "noscript".toList = true ∧
-    Verif.Model.Html.isBlock "style".toList = true ∧
-    Verif.Model.Html.isObject "embed".toList = false ∧ Verif.Model.Html.isObject "audio".toList = false := by
+/-- **tag_classes_ok** (regression for K-C03-9, on the regenerated table): `noscript` and `style` are not
+    block-like (hidden / inline: whitespace next to them is significant for the surrounding text); the replaced
+    elements `embed` and `audio` and the non-rendered `datalist` are object-like; `marquee` (inline-block) is
+    object-like; so are the non-rendered `template` and `noscript` (K-C03-16). -/
+theorem tag_classes_ok :
+    Verif.Model.Html.isBlock "noscript".toList = false ∧ Verif.Model.Html.isBlock "style".toList = false ∧
+    Verif.Model.Html.isObject "embed".toList = true ∧ Verif.Model.Html.isObject "audio".toList = true ∧
+    Verif.Model.Html.isObject "datalist".toList = true ∧ Verif.Model.Html.isObject "marquee".toList = true ∧
+    Verif.Model.Html.isObject "template".toList = true ∧ Verif.Model.Html.isObject "noscript".toList = true := by
   decide +kernel
 
 end Verif.Props.C03
